@@ -150,6 +150,15 @@ Theorem C20_sensitivity_bracket_sound : forall (bw : Z) (nfsnr o : Q),
 Proof. exact sens_bracket_sound. Qed.
 Print Assumptions C20_sensitivity_bracket_sound.
 
+(* and the bracket raises no alarm on a value within 0.05 dB of the formula (a correctly rounded
+   float32 result near -140..-90 dB is within 1e-5 dB of it) *)
+Theorem C20_sensitivity_bracket_complete : forall (bw : Z) (nfsnr o : Q),
+  (0 < bw)%Z ->
+  (Rabs (Q2R o - (-174 + 10 * (ln (IZR bw) / ln 10) + Q2R nfsnr)) <= 1 / 20)%R ->
+  sens_bracket bw nfsnr o = true.
+Proof. exact sens_bracket_complete. Qed.
+Print Assumptions C20_sensitivity_bracket_complete.
+
 (* non-vacuity of the bracket: it accepts the value for 125 kHz, NF 6, SNR -20 and refuses one 0.2 dB off *)
 Example C20_sensitivity_bracket_example :
   sens_bracket 125000 (-14) (-1370309 # 10000) = true /\ sens_bracket 125000 (-14) (-1368309 # 10000) = false.
